@@ -1,8 +1,8 @@
 #!/bin/sh
-# build.sh <name> <ExtractFile.v>: extract coq/Extract/<ExtractFile>.v (which must
+# build.sh <name> <ExtractFile.v> [entry point, default run_sexp]: extract coq/Extract/<ExtractFile>.v (which must
 # emit <name>_model.ml) and link it with main.ml into runner/bin/<name>
 set -e
-name=$1; vfile=$2
+name=$1; vfile=$2; entry=${3:-run_sexp}
 here=$(cd "$(dirname "$0")" && pwd)
 gen=$here/gen/$name
 mkdir -p "$gen" "$here/bin"
@@ -11,5 +11,5 @@ rm -f ./*.ml ./*.mli ./*.cm* ./*.o
 timeout 600 coqc -Q "$here/../coq" DV "$here/../coq/Extract/$vfile" >/dev/null
 rm -f "$here/../coq/Extract/${vfile%.v}.vo" "$here/../coq/Extract/${vfile%.v}.glob" "$here/../coq/Extract/.${vfile%.v}.aux" "$here/../coq/Extract/${vfile%.v}.vos" "$here/../coq/Extract/${vfile%.v}.vok"
 mv ${name}_model.ml model.ml; mv ${name}_model.mli model.mli
-cp "$here/main.ml" main.ml
+sed "s/run_sexp (parse line)/$entry (parse line)/" "$here/main.ml" > main.ml
 ocamlfind ocamlopt -O3 -w -a model.mli model.ml main.ml -o "$here/bin/$name" 2>/dev/null || ocamlfind ocamlopt -w -a model.mli model.ml main.ml -o "$here/bin/$name"
